@@ -697,6 +697,7 @@ func (fr *Frame) enterLoop(lp *Loop, ins []edgeIn) (*State, string) {
 		nv := c.smt.declareFresh("h."+al.Comment, c.sortOf(t))
 		c.smt.assume(c.typeFacts(t, nv), "")
 		s1.cells[v.Addr.CellID] = Val{T: t, Term: nv}
+		c.closedHeap(s1, t, nv, 0) // a reference held in a local is nil or allocated
 		if al.Comment == "rangeindex" {
 			// compiler-generated index of `for i := range slice`: starts at -1, is incremented
 			// by one while the incremented value is below the length read before the loop
@@ -764,6 +765,7 @@ func (fr *Frame) enterLoop(lp *Loop, ins []edgeIn) (*State, string) {
 		for _, cl := range fr.contract.loopClauses("invariant", lp.ordinal) {
 			env := fr.env(s1)
 			env.loopEntry = s0
+			env.rangeAllocs = fr.rangeAllocsFor(lp)
 			t, err := env.evalBool(cl.Expr)
 			if err != nil {
 				fr.bindFailure(cl, err)
@@ -964,6 +966,7 @@ func (fr *Frame) checkInvariants(lp *Loop, st *State, reach, kind string, from *
 		for _, cj := range conjuncts(cl.Expr) {
 			env := fr.env(st)
 			env.loopEntry = fr.loopEntryState[lp]
+			env.rangeAllocs = fr.rangeAllocsFor(lp)
 			t, err := env.evalBool(cj)
 			if err != nil {
 				fr.bindFailure(cl, err)
@@ -976,6 +979,27 @@ func (fr *Frame) checkInvariants(lp *Loop, st *State, reach, kind string, from *
 			fr.oblige(kind, fmt.Sprintf("loop %d: %s", lp.ordinal, cj.String()), reach, t, pos)
 		}
 	}
+}
+
+// rangeAllocsFor: the compiler-generated counters of `for … range slice` loops, by name: "rangeindex" is the
+// counter of lp itself, "rangeindex<N>" the counter of the loop with source ordinal N.
+func (fr *Frame) rangeAllocsFor(lp *Loop) map[string]*ssa.Alloc {
+	m := map[string]*ssa.Alloc{}
+	li := fr.c.eng.loopInfo(fr.fn)
+	for _, l := range li.loops {
+		for _, in := range l.header.Instrs {
+			if ld, ok := in.(*ssa.UnOp); ok && ld.Op == token.MUL {
+				if al, ok := ld.X.(*ssa.Alloc); ok && al.Comment == "rangeindex" {
+					m[fmt.Sprintf("rangeindex%d", l.ordinal)] = al
+					if l == lp {
+						m["rangeindex"] = al
+					}
+					break
+				}
+			}
+		}
+	}
+	return m
 }
 
 func (fr *Frame) bindFailure(cl *Clause, err error) {
